@@ -15,6 +15,7 @@ import (
 	"io"
 	"strings"
 	"testing"
+	"time"
 
 	chunker "github.com/ipfs/boxo/chunker"
 	mdag "github.com/ipfs/boxo/ipld/merkledag"
@@ -175,6 +176,11 @@ func buildInitial(ctx context.Context, c *config, ds ipld.DAGService) (ipld.Node
 	return trickle.Layout(db)
 }
 
+// a single call gets this long before it counts as hanging; hangs counts them
+const opTimeout = 20 * time.Second
+
+var hangs int
+
 // lastErrs collects the texts of the errors seen (diagnostics for the replay test only);
 // sawDigestTooLarge records that an error wrapping verifcid.ErrDigestTooLarge was returned
 // (the signature of finding C10-7), reset by runHistory.
@@ -274,7 +280,7 @@ func runHistory(e *vh.Env, c *config, ops []op) (done []op, obs []string, oracle
 	for _, o := range ops {
 		var ob string
 		stop := false
-		func() {
+		call := func() {
 			defer func() {
 				if r := recover(); r != nil {
 					ob, stop = "BPanic", true
@@ -344,7 +350,19 @@ func runHistory(e *vh.Env, c *config, ops []op) (done []op, obs []string, oracle
 					}
 				}
 			}
-		}()
+		}
+		// watchdog: a call that does not return (e.g. a walker spinning over a DAG that was
+		// changed under it) is recorded like a panic and ends the history
+		fin := make(chan struct{})
+		go func() { defer close(fin); call() }()
+		select {
+		case <-fin:
+		case <-time.After(opTimeout):
+			hangs++
+			done = append(done, o)
+			obs = append(obs, "BPanic")
+			return done, obs, oracle, inlineRoot
+		}
 		done = append(done, o)
 		obs = append(obs, ob)
 		if stop {
@@ -748,6 +766,9 @@ func TestC10(t *testing.T) {
 	}
 	pref := vh.List(prefIdx)
 	for _, j := range jobs {
+		if hangs >= 3 { // every hung call keeps a goroutine spinning: enough evidence
+			break
+		}
 		done, obs, oracle, inlineRoot := runHistory(e, j.c, j.ops)
 		rp := map[string]any{"config": j.c, "ops": done}
 		for _, msg := range oracle {
